@@ -1,7 +1,11 @@
 package main
 
 import (
+	"encoding/json"
 	"fmt"
+	"os"
+	"os/exec"
+	"path/filepath"
 	"regexp"
 	"strings"
 )
@@ -15,7 +19,26 @@ func init() {
 		Assume: []string{"Go regexp (leftmost-first, (?m) anchors, (?s:.) prefix) is a conventional backtracking engine on the subset", "texts exclude \\r, \\f, \\v"},
 		Budget: map[string]int{"quick": 150, "thorough": 1500},
 		Run:    runC14,
+		Prepare: func() error { return os.RemoveAll(verifRoot + "/bin/c14py") },
 		Post: func(a *Agg, cov map[string]any) {
+			// thorough tier: Python's re arbitrates the back-reference cases the workers recorded
+			if files, _ := filepath.Glob(verifRoot + "/bin/c14py/shard-*.jsonl"); len(files) > 0 {
+				out, err := exec.Command("python3", append([]string{verifRoot + "/tools/c14_arbiter.py"}, files...)...).Output()
+				var res struct {
+					Checked       int64      `json:"checked"`
+					Disagreements [][]string `json:"disagreements"`
+				}
+				if err == nil && json.Unmarshal(out, &res) == nil {
+					cov["python_re_validated_backreference_cases"] = res.Checked
+					if len(res.Disagreements) > 0 {
+						a.Counters["ORACLE-DISAGREEMENT"] += int64(len(res.Disagreements))
+						cov["python_re_disagreements"] = res.Disagreements
+					}
+				} else {
+					cov["python_re_arbiter"] = fmt.Sprintf("not run: %v", err)
+				}
+				os.RemoveAll(verifRoot + "/bin/c14py")
+			}
 			cov["programs"] = a.Counters["regexes"]
 			cov["disagreements_checked"] = a.Counters["comparisons"]
 			cov["model_validated_cases"] = a.Counters["r_vs_go_agree"]
@@ -92,6 +115,17 @@ func rxFeatures(s string) string {
 	return joinSet(acc)
 }
 
+// c14PyCases collects, per worker, the back-reference cases for the Python arbiter (thorough tier).
+var c14PyFile *os.File
+
+func c14PyRecord(rxs string, cases [][2]string) {
+	if c14PyFile == nil || len(cases) == 0 {
+		return
+	}
+	b, _ := json.Marshal(map[string]any{"re": rxs, "cases": cases})
+	c14PyFile.Write(append(b, '\n'))
+}
+
 func c14Unit(c *Ctx, rx RX, txts []string) {
 	body, _, hasRef, perr := parseRx(rx.S)
 	if perr != "" {
@@ -109,11 +143,18 @@ func c14Unit(c *Ctx, rx RX, txts []string) {
 	if !hasRef {
 		g = &goRx{src: rx.S, byPos: map[int]*regexp.Regexp{}}
 	}
+	var pyCases [][2]string
+	// named groups are numbered too by most engines but not by vore: a numeric reference next to a named group is ambiguous
+	pyOK := hasRef && !(strings.Contains(rx.S, "(?<") && (strings.Contains(rx.S, "\\1") || strings.Contains(rx.S, "\\2")))
+	defer func() { c14PyRecord(rx.S, pyCases) }()
 	for _, t := range txts {
 		c.Eval(1)
 		want, r := refScan(prog, t, Variants{})
 		if r.blown {
 			continue
+		}
+		if pyOK && c14PyFile != nil {
+			pyCases = append(pyCases, [2]string{t, fmtSpans(want, true)})
 		}
 		if g != nil {
 			gw, ok := g.scan(t)
@@ -151,6 +192,12 @@ func c14Unit(c *Ctx, rx RX, txts []string) {
 }
 
 func runC14(c *Ctx) {
+	if !c.Quick() {
+		dir := verifRoot + "/bin/c14py"
+		os.MkdirAll(dir, 0o755)
+		c14PyFile, _ = os.Create(fmt.Sprintf("%s/shard-%d.jsonl", dir, c.Shard))
+		defer c14PyFile.Close()
+	}
 	installStepHook()
 	defer flushInstKinds(c)
 	g := newRxGram(false)
